@@ -625,12 +625,16 @@ def _digest(g):
 
 def _report(run, cs, meta, g, cls, clauses, coq_disagrees):
     view = None
-    if coq_disagrees:
+    key = f"{meta['kind']}-{cls}-" + ("+".join(sorted({c.split(':')[0] for c in clauses})) or "model-disagrees")
+    seen = run.extra.setdefault("violation_keys", [])
+    if key in seen:
+        return                      # one replay per key (the first input that shows it)
+    seen.append(key)
+    if coq_disagrees and cs is not None and len(seen) <= 3:
         try:
             view = cs.model_view(_case_term(g))
         except Exception as e:  # noqa
             view = repr(e)
-    key = f"{meta['kind']}-{cls}-" + ("+".join(sorted({c.split(':')[0] for c in clauses})) or "model-disagrees")
     run.violation(key, {
         "clause": clauses or ["the transcript differs from the one the model computes on the same engine answers"],
         "ending_class": cls, "scenario": _scenario_json(g), "meta": meta,
